@@ -132,7 +132,7 @@ def body_cli(case, rec):
         mp.write_text(remap.map_agp_text(case))
         out = d / "out" / "x.1.agp"
         out.parent.mkdir()
-        res = remap.run_cli_inprocess(["-a", inp, "-p", mp, "-o", out])
+        res = remap.run_cli_inprocess(["-a", inp, "-p", mp, "-o", out] + (["--log-level", "DEBUG"] if case.get("debug_log") else []))
         if res.exit_code != 0:
             raise Violation(f"CLI failed on a null map: exit {res.exit_code} {type(res.exception).__name__}: {res.exception}")
         files = sorted(f.name for f in out.parent.iterdir())
@@ -188,7 +188,13 @@ def cases(draw, painted=False, small=False):
                 inp.append([name, rows])
     m = draw(gen.model_map(inp, t, cut=False, identity=True, painted=painted))
     prefix = draw(st.sampled_from(["SUPER_", "SUPER_", "CHR", "chr_", "LG"]))
-    return {"t": gen.texel_str(t), "input": inp, "map": m, "prefix": prefix}
+    case = {"t": gen.texel_str(t), "input": inp, "map": m, "prefix": prefix}
+    k = draw(st.integers(0, 7))
+    if k == 0:
+        case["debug_log"] = True  # root logger at DEBUG during the run (API) / --log-level DEBUG (CLI)
+    elif k == 1:
+        case["fuse_twice"] = True  # the fused assemblies are asked for twice; the second answer is judged
+    return case
 
 
 SUBS = [
